@@ -37,7 +37,7 @@ var c02Bin = []string{"eq", "concat", "plus", "minus", "mult", "div", "pow", "an
 var c02Un = []string{"cast", "not", "neg", "isnull", "in"}
 var c02BinAll = []string{"eq", "neq", "lt", "gte", "concat", "regexp", "jsonop", "plus", "minus", "mult", "div", "mod", "pow",
 	"and", "or", "and3", "or3", "like", "ilike", "notlike", "similar", "likeesc"}
-var c02UnAll = []string{"cast", "castarr", "not", "neg", "isnull", "isnotnull", "in", "notin"}
+var c02UnAll = []string{"cast", "castarr", "not", "neg", "isnull", "isnotnull", "in", "notin", "and1", "or1"}
 
 func arity(kind string) int {
 	for _, k := range c02BinAll {
@@ -169,6 +169,11 @@ func (b *c02Builder) build(n *xnode) (builder.Exp, string) {
 		return l().Cast("int"), "(" + ps[0] + "::int)"
 	case "castarr":
 		return l().Cast("text[]"), "(" + ps[0] + "::text[])"
+	case "and1":
+		// a junction left with one element after nil filtering (dynamic filter lists)
+		return qrb.And(nil, b.arg(k[0], n.wrap[0])), "And(nil, " + ps[0] + ")"
+	case "or1":
+		return qrb.Or(b.arg(k[0], n.wrap[0]), nil), "Or(" + ps[0] + ", nil)"
 	case "not":
 		return qrb.Not(b.arg(k[0], n.wrap[0])), "(NOT " + ps[0] + ")"
 	case "neg":
@@ -291,6 +296,31 @@ func runC02(out io.Writer, seed int64, n int, depth int, stride int) {
 					n.kids[pos] = child
 					n.wrap[pos] = wrap
 					one(n, "pair")
+				}
+			}
+		}
+	}
+	// a one-element junction renders as its bare element: every parent x position x wrapping over it x every operator
+	// kind below it
+	mk := func(kind string) *xnode {
+		n := &xnode{kind: kind, kids: make([]*xnode, arity(kind)), wrap: make([]bool, arity(kind))}
+		for i := range n.kids {
+			n.kids[i] = atomNode("ident")
+		}
+		return n
+	}
+	for _, pk := range allOps {
+		for pos := 0; pos < arity(pk); pos++ {
+			for _, wrap := range []bool{false, true} {
+				for _, mid := range []string{"and1", "or1"} {
+					for _, ck := range allOps {
+						m := mk(mid)
+						m.kids[0] = mk(ck)
+						n := mk(pk)
+						n.kids[pos] = m
+						n.wrap[pos] = wrap
+						one(n, "transparent")
+					}
 				}
 			}
 		}
